@@ -125,6 +125,8 @@ def run_units_kani(units, tier, work, only_props=None, tag='k'):
             cmd += ['--harness', h['name']]
     env = dict(os.environ, CARGO_NET_OFFLINE='true')
     tmo = sum(u['kani'].get('timeout', 1200 if tier == 'quick' else 2400) for _, u, _ in sel.values())
+    # one run holds the shared lock: cap the whole run (harnesses without a result are 'undecided', never an alarm)
+    tmo = min(tmo, int(os.environ.get('VERIF_KANI_CAP', '1500' if tier == 'quick' else '2700')))
     lock = open(os.path.join(CACHE, 'kani.lock'), 'w')
     fcntl.flock(lock, fcntl.LOCK_EX)
     try:
